@@ -92,14 +92,17 @@ Definition hostapp_counts (res c : Z) : bool := prio_default_value res <? prio_d
 (* ------------------------------------------------------------------------------------------ *)
 (* inputs *)
 Record pod := mkPod {
-  p_phase : Z;    (* 0 Pending, 1 Running, 2 Succeeded, 3 Failed, 4 Unknown *)
+  p_phase : Z;    (* 0 Pending, 1 Running, 2 Succeeded, 3 Failed, 4 Unknown,
+                     5 Running with a deletionTimestamp, 6 Pending with a deletionTimestamp
+                     (a terminating pod still holds its request and still runs) *)
   p_plabel : Z; p_pval : Z; p_qlabel : Z; p_kube : Z;
   p_req_cpu : Z; p_req_mem : Z;          (* sum over containers *)
   p_has : bool;                          (* a PodMetricInfo with the pod's key is reported *)
   p_mprio : Z; p_use_cpu : Z; p_use_mem : Z;   (* that metric: priority code, usage *)
   p_numa : Z                             (* bit i set: NUMANodeResources names node i (i < 6) *)
 }.
-Definition p_active (p : pod) : bool := (p_phase p =? 0) || (p_phase p =? 1).
+Definition p_active (p : pod) : bool :=
+  (p_phase p =? 0) || (p_phase p =? 1) || (p_phase p =? 5) || (p_phase p =? 6).
 Definition p_prio (p : pod) : Z := prio_of (p_plabel p) (p_pval p) (p_qlabel p) (p_kube p).
 Definition p_hp (p : pod) : bool := negb (is_lp (p_prio p)).
 Definition p_lse (p : pod) : bool := qos_of (p_qlabel p) (p_kube p) =? 1.
@@ -288,6 +291,30 @@ Definition run_batch (b : binput) : list Z :=
     [0; c; m; c; m; Z.of_nat n] ++ zones_out b n 0 (b_zones b).
 
 (* ------------------------------------------------------------------------------------------ *)
+(* sloconfig.GetNodeColocationStrategy: cluster strategy, then the node's colocation-strategy
+   annotation (fields present in it override; an annotation that does not parse is ignored), then
+   the node's reclaim-ratio labels (take precedence over both; a label that is not a non-negative
+   float is ignored).  A label "x.yz" is strconv.ParseFloat-ed and int64(v*100) is taken. *)
+Definition ratio_label_pct (h : Z) : Z := f_trunc (f_mul (rne h 100) (f_of_int 100)).
+Definition ovr (v base : Z) : Z := if v <? 0 then base else v.     (* -1: field absent *)
+Record nodecfg := mkNodeCfg {
+  nc_anno : Z;                (* 0 no annotation, 1 well-formed, other: does not parse *)
+  nc_a_cpu_reclaim : Z; nc_a_mem_reclaim : Z; nc_a_cpu_thr : Z; nc_a_mem_thr : Z;
+  nc_l_cpu_kind : Z; nc_l_cpu : Z;     (* kind 1: label "h/100" with h >= 0; other kinds: absent/ignored *)
+  nc_l_mem_kind : Z; nc_l_mem : Z }.
+Definition nodecfg0 : nodecfg := mkNodeCfg 0 (-1) (-1) (-1) (-1) 0 0 0 0.
+Definition resolve_strategy (s : strategy) (c : nodecfg) : strategy :=
+  let a := nc_anno c =? 1 in
+  let cr := if a then ovr (nc_a_cpu_reclaim c) (s_cpu_reclaim s) else s_cpu_reclaim s in
+  let mr := if a then ovr (nc_a_mem_reclaim c) (s_mem_reclaim s) else s_mem_reclaim s in
+  let ct := if a then ovr (nc_a_cpu_thr c) (s_cpu_thr s) else s_cpu_thr s in
+  let mt := if a then ovr (nc_a_mem_thr c) (s_mem_thr s) else s_mem_thr s in
+  mkStrategy (s_cpu_policy s) (s_mem_policy s)
+    (if nc_l_cpu_kind c =? 1 then ratio_label_pct (nc_l_cpu c) else cr)
+    (if nc_l_mem_kind c =? 1 then ratio_label_pct (nc_l_mem c) else mr)
+    ct mt (s_degrade s).
+
+(* ------------------------------------------------------------------------------------------ *)
 (* the mid plugin *)
 Record mstrategy := mkMStrategy {
   ms_static : bool;                          (* MidReclaimMode = "static" *)
@@ -358,3 +385,18 @@ Definition mid_mem (m : minput) : Z :=
 Definition run_mid (m : minput) : list Z :=
   if is_degraded (ms_degrade (m_s m)) (m_age m) then [1; -1; -1]
   else [0; mid_cpu m; mid_mem m; mid_cpu m; mid_mem m].
+
+(* the mid strategy resolved the same way: annotation fields and the mid-static-*-reserved-ratio labels *)
+Record mnodecfg := mkMNodeCfg {
+  mc_anno : Z; mc_a_static_cpu : Z; mc_a_static_mem : Z; mc_a_unalloc : Z;
+  mc_l_cpu_kind : Z; mc_l_cpu : Z; mc_l_mem_kind : Z; mc_l_mem : Z }.
+Definition mnodecfg0 : mnodecfg := mkMNodeCfg 0 (-1) (-1) (-1) 0 0 0 0.
+Definition resolve_mstrategy (s : mstrategy) (c : mnodecfg) : mstrategy :=
+  let a := mc_anno c =? 1 in
+  let sc := if a then ovr (mc_a_static_cpu c) (ms_static_cpu s) else ms_static_cpu s in
+  let sm := if a then ovr (mc_a_static_mem c) (ms_static_mem s) else ms_static_mem s in
+  let un := if a then ovr (mc_a_unalloc c) (ms_unalloc s) else ms_unalloc s in
+  mkMStrategy (ms_static s) (ms_cpu_thr s) (ms_mem_thr s) un
+    (if mc_l_cpu_kind c =? 1 then ratio_label_pct (mc_l_cpu c) else sc)
+    (if mc_l_mem_kind c =? 1 then ratio_label_pct (mc_l_mem c) else sm)
+    (ms_degrade s).
